@@ -295,9 +295,24 @@ fn op_transport(line: &str, args: &[SExp]) -> CaseResult {
         None => return CaseResult { line: line.into(), result: "(invalid-uri)".into(), oracle: None, class: "invalid-uri".into() },
     };
     let expect = args.get(1).and_then(|a| a.atom()).and_then(unhex).and_then(|b| String::from_utf8(b).ok());
+    // history on this thread first: the same target under each of the other schemes is mapped before the target itself,
+    // and the target is mapped twice - what was mapped before must not change the answer
+    if let Some((sch, tail)) = s.split_once("://") {
+        for other in ["ipp", "ipps", "http", "https"] {
+            if !other.eq_ignore_ascii_case(sch) {
+                if let Ok(sib) = format!("{}://{}", other, tail).parse::<http::Uri>() {
+                    let _ = ipp::client::verif_transport_url(&sib);
+                }
+            }
+        }
+    }
     let out = ipp::client::verif_transport_url(&u);
     let mut oracle = None;
-    if let Some(e) = expect {
+    let out2 = ipp::client::verif_transport_url(&u);
+    if out2 != out {
+        oracle = Some(format!("mapping `{}` twice gives `{}` and then `{}`", s, out, out2));
+    }
+    if let (Some(e), true) = (expect, oracle.is_none()) {
         // an empty path may be written as "" or "/" (RFC 3986 6.2.3): both spellings are the same URL
         let alt = if e.contains("/?") { e.replacen("/?", "?", 1) } else { e.clone() };
         if e != out && alt != out {
